@@ -248,4 +248,93 @@ Proof.
       * right. unfold pl in Hc. destruct (decide (v = v0)) as [<-|Hne]; [rewrite lookup_delete in Hc; destruct Hc|].
         rewrite lookup_delete_ne in Hc by assumption. now apply S1.
 Qed.
+
+(* ---- the fuel of the model (one round per register to allocate, plus one) always suffices: Go's
+   `for { ... }` loop in Allocate() ends after at most |possible| rounds *)
+Lemma same_keys_same_size (m1 m2 : POSS) : (forall v, is_Some (m1 !! v) <-> is_Some (m2 !! v)) -> size m1 = size m2.
+Proof.
+  intro H. rewrite <- (size_dom (D := gset N) m1), <- (size_dom (D := gset N) m2). f_equal.
+  apply set_eq. intro v. rewrite !elem_of_dom. apply H.
+Qed.
+
+Lemma upd_err_code al es : forall rem po e, a_update_go al es rem po = Err e -> e = EImpossible.
+Proof.
+  induction es as [|[ex ey] es IH]; intros rem po e H; cbn [a_update_go] in H; [discriminate|].
+  destruct (id_is_virtual (lk al ex)), (id_is_virtual (lk al ey)); try (eapply IH; eauto; fail).
+  destruct (lk al ex =? lk al ey); [now inversion H|eapply IH; eauto].
+Qed.
+
+Lemma allocate_fuel_enough fuel : forall a,
+  AInv (a_alloc a) (a_edges a) (a_poss a) -> (size (a_poss a) < fuel)%nat -> a_allocate fuel a <> Err EOutOfFuel.
+Proof.
+  induction fuel as [|f IH]; intros a Hinv Hf; [lia|]. cbn [a_allocate].
+  destruct (a_update_go (a_alloc a) (a_edges a) [] (a_poss a)) as [[rem po]|e|] eqn:Eu; cbn; try discriminate.
+  2:{ apply upd_err_code in Eu. subst e. discriminate. }
+  - destruct Hinv as [Hal Hpo Hcand Hsub Hends Hres].
+    assert (Hd : forall e, In e (a_edges a) -> ends_in (a_alloc a) (a_poss a) e) by (intros e He; apply Hends, Hsub, He).
+    destruct (upd_shrink _ _ _ _ _ _ Eu Hd) as [S1 S2].
+    destruct (upd_resolve _ _ _ _ _ _ Eu Hd) as (R1 & R2 & R3).
+    destruct (Nat.eqb (size po) 0); [discriminate|].
+    set (v := most_restricted (map_to_list po)).
+    destruct (po !! v) as [cands|] eqn:Ev; cbn [default]; [|discriminate].
+    destruct cands as [|pch rest]; [discriminate|].
+    (* the next state satisfies the invariant (as in allocate_sound) and has one key less *)
+    assert (Hv : virt v /\ a_alloc a !! v = None) by (apply Hpo, S2; eauto). destruct Hv as [Hvv Hvn].
+    assert (Hpch : In pch (pl (a_poss a) v)) by (apply S1; unfold pl; rewrite Ev; now left).
+    destruct (Hcand v pch Hpch) as [Hpp Hpk].
+    assert (Hres' : forall x y, In (x, y) E0 -> resolved (a_alloc a) po rem x y).
+    { intros x y Hin. destruct (Hres x y Hin) as [He|Hr]; [now apply R2|].
+      destruct Hr as [(_ & _ & [])|[Hr|[(A & B & C)|(A & B & C)]]].
+      - right. left. exact Hr.
+      - right. right. left. split; [exact A|]. split; [exact B|]. intro Hc. apply C. now apply S1.
+      - right. right. right. split; [exact A|]. split; [exact B|]. intro Hc. apply C. now apply S1. }
+    apply IH.
+    + cbn [a_alloc a_edges a_poss].
+      assert (Hal' : forall v0 c, <[v := pch]> (a_alloc a) !! v0 = Some c -> virt v0 /\ phys c /\ id_kind c = id_kind v0).
+      { intros v0 c Hl. destruct (decide (v = v0)) as [<-|Hne].
+        - rewrite lookup_insert in Hl. inversion Hl; subst. auto.
+        - rewrite lookup_insert_ne in Hl by assumption. now apply Hal. }
+      constructor.
+      * exact Hal'.
+      * intros v0 [l Hl]. destruct (decide (v = v0)) as [<-|Hne]; [rewrite lookup_delete in Hl; discriminate|].
+        rewrite lookup_delete_ne in Hl by assumption.
+        destruct (Hpo v0) as [A B]; [apply S2; eauto|]. split; [exact A|]. now rewrite lookup_insert_ne.
+      * intros v0 c Hc. unfold pl in Hc. destruct (decide (v = v0)) as [<-|Hne]; [rewrite lookup_delete in Hc; destruct Hc|].
+        rewrite lookup_delete_ne in Hc by assumption. apply Hcand. now apply S1.
+      * intros e He. destruct (R3 e He) as [[]|(Hin & _)]. now apply Hsub.
+      * intros e He. destruct (Hends e He) as [A B].
+        assert (G : forall x, (virt (lk (a_alloc a) x) -> is_Some (a_poss a !! lk (a_alloc a) x)) ->
+                    virt (lk (<[v := pch]> (a_alloc a)) x) -> is_Some (delete v po !! lk (<[v := pch]> (a_alloc a)) x)).
+        { intros x Ax Hvx. destruct (lk_virt_is _ x Hal' Hvx) as [Ex Nx]. rewrite Ex.
+          assert (Hne : v <> x) by (intro E; subst x; rewrite lookup_insert in Nx; discriminate).
+          rewrite lookup_insert_ne in Nx by assumption. rewrite lookup_delete_ne by assumption. apply S2.
+          assert (Ek : lk (a_alloc a) x = x) by (unfold lookup_default; now rewrite Nx).
+          rewrite Ek in Ax. apply Ax. rewrite Ex in Hvx. exact Hvx. }
+        split; [apply G, A|apply G, B].
+      * intros x y Hin. destruct (Hres' x y Hin) as [(A & B & C)|[(A & B & C)|[(A & B & C)|(A & B & C)]]]; unfold resolved.
+        -- left. exact C.
+        -- right. right. left. rewrite !(lk_phys_stable _ v pch _ Hal Hvn Hvv) by assumption. repeat split; auto.
+        -- assert (Lx : lk (<[v := pch]> (a_alloc a)) x = lk (a_alloc a) x) by (apply lk_phys_stable; assumption).
+           destruct (lk_virt_is _ y Hal B) as [Ey Ny]. rewrite Ey in *.
+           destruct (decide (v = y)) as [<-|Hne].
+           ++ assert (Lv : lk (<[v := pch]> (a_alloc a)) v = pch) by (unfold lookup_default; now rewrite lookup_insert).
+              right. right. left. rewrite Lx, Lv. split; [exact A|]. split; [exact Hpp|].
+              intro E. apply C. rewrite E. unfold pl. rewrite Ev. now left.
+           ++ assert (Ly : lk (<[v := pch]> (a_alloc a)) y = y) by (unfold lookup_default; rewrite lookup_insert_ne by assumption; now rewrite Ny).
+              right. right. right. left. rewrite Lx, Ly. split; [exact A|]. split; [exact B|].
+              unfold pl. rewrite lookup_delete_ne by assumption. exact C.
+        -- assert (Ly : lk (<[v := pch]> (a_alloc a)) y = lk (a_alloc a) y) by (apply lk_phys_stable; assumption).
+           destruct (lk_virt_is _ x Hal A) as [Ex Nx]. rewrite Ex in *.
+           destruct (decide (v = x)) as [<-|Hne].
+           ++ assert (Lv : lk (<[v := pch]> (a_alloc a)) v = pch) by (unfold lookup_default; now rewrite lookup_insert).
+              right. right. left. rewrite Ly, Lv. split; [exact Hpp|]. split; [exact B|].
+              intro E. apply C. rewrite <- E. unfold pl. rewrite Ev. now left.
+           ++ assert (Lx : lk (<[v := pch]> (a_alloc a)) x = x) by (unfold lookup_default; rewrite lookup_insert_ne by assumption; now rewrite Nx).
+              right. right. right. right. rewrite Lx, Ly. split; [exact A|]. split; [exact B|].
+              unfold pl. rewrite lookup_delete_ne by assumption. exact C.
+    + cbn [a_poss]. rewrite map_size_delete_Some by eauto. rewrite (same_keys_same_size po (a_poss a) S2).
+      assert (0 < size (a_poss a))%nat; [|lia].
+      rewrite <- (same_keys_same_size po (a_poss a) S2). destruct (size po) eqn:Es; [|lia].
+      apply map_size_empty_inv in Es. subst po. rewrite lookup_empty in Ev. discriminate.
+Qed.
 End Loop.
